@@ -303,8 +303,6 @@ Proof.
       * assert (Hc : is_hexdig c = true).
         { (* the digits are checked when the brace closes; here: by the denotation of the rest *)
           clear IH Hr.
-          assert (Hgen : forall t ds v0, denote_st 34 (DBrace ds) t = Some v0 -> forallb is_hexdig ds = true
-                          \/ True) by (intros; right; exact I).
           (* positional 16 (rev (.. ++ c :: acc)) succeeds at the closing brace, so c is a hex digit *)
           assert (Hin : forall t ds v0, denote_st 34 (DBrace ds) t = Some v0 ->
                          forall x, In x ds -> exists d, digit_value 16 x = Some d).
@@ -359,7 +357,7 @@ Theorem text_ok_refuted_range : exists tok,    (* "\u{110000}" *)
   text_spelling tok = true /\ text_lit tok = None /\ text_value_model tok = [].
 Proof. exists [34; 92; 117; 123; 49; 49; 48; 48; 48; 48; 125; 34]. vm_compute. auto. Qed.
 
-(* non-vacuity: "aA🁳\u{1F073}\n" *)
+(* non-vacuity: a, \u0041, the surrogate pair \uD83C\uDC73, \u{1F073}, \n *)
 Example text_example :
   text_lit [34; 97; 92;117;48;48;52;49; 92;117;68;56;51;67; 92;117;68;67;55;51; 92;117;123;49;70;48;55;51;125; 92;110; 34]
   = Some [97; 65; 127091; 127091; 10].
